@@ -231,7 +231,7 @@ def impl_serialise(doc, opts, named: bool = False) -> str:
 
 # ------------------------------------------------------------------------------------------------ correspondence: serialise
 def corr_serialise(ck: Ck) -> None:
-    n = ck.budget(220, 2500)
+    n = ck.budget(400, 2000)
     cases = []
     for i in range(n):
         rng = ck.rng
@@ -328,7 +328,7 @@ def gen_parse_text(rng: random.Random) -> tuple[str, str]:
 
 
 def corr_parse(ck: Ck) -> None:
-    n = ck.budget(700, 9000)
+    n = ck.budget(1500, 6000)
     cases = []
     for i in range(n):
         if i < len(CORPUS_TEXT):
@@ -583,7 +583,7 @@ SEARCH_CORPUS = [
 
 
 def search(ck: Ck) -> None:
-    n = ck.budget(500, 9000)
+    n = ck.budget(4000, 30000)
     found: dict[str, tuple] = {}
     shrinks: dict[str, int] = {}
     shrunk_docs: set = set()
